@@ -211,7 +211,7 @@ def main(argv=None):
             for s in mod.plan(tier, seed_r):
                 if r and (s.get("once") or s.get("kind") == "ambient-tests" or s.get("build") == "asan"):
                     continue
-                s["seed"] = seed_r
+                s["seed"] = s.get("fixed_seed", seed_r)
                 if r:
                     s["name"] = "%s@r%d" % (s.get("name", "batch"), r)
                 specs.append(s)
